@@ -3,6 +3,7 @@
 package har
 
 import (
+	"bytes"
 	"net/http"
 	"net/url"
 	"sync"
@@ -391,3 +392,76 @@ func VerifC17Concurrent() {
 	}
 	vf.Reach("done")
 }
+
+// VerifC17Handlers: the HTTP handlers in front of the log, from a log holding
+// one completed and/or one pending entry: which method and "return" value leads
+// to which log operation, and what the log holds afterwards.
+func VerifC17Handlers() {
+	var ids []string
+	var done []bool
+	if vf.Choice("completed-entry", 2) == 1 {
+		ids, done = append(ids, "a"), append(done, true)
+	}
+	if vf.Choice("pending-entry", 2) == 1 {
+		ids, done = append(ids, "b"), append(done, false)
+	}
+	l, model := buildState(ids, done)
+	method := []string{"GET", "POST", "DELETE", "PUT"}[vf.Choice("method", 4)]
+	reset := vf.Choice("reset-handler", 2) == 1
+	rets := []string{"", "return=true", "return=1", "return=false", "return=bogus"}
+	ret := vf.Choice("return-param", len(rets))
+	w := &hrw{h: http.Header{}, status: 200}
+	req := &http.Request{Method: method, URL: &url.URL{Path: "/logs", RawQuery: rets[ret]}, Header: http.Header{}}
+	if reset {
+		NewResetHandler(l).ServeHTTP(w, req)
+	} else {
+		NewExportHandler(l).ServeHTTP(w, req)
+	}
+	var completed, pending []mEntry
+	for _, m := range model {
+		if m.done {
+			completed = append(completed, m)
+		} else {
+			pending = append(pending, m)
+		}
+	}
+	listed := func(want []mEntry) {
+		// the document is JSON with one "startedDateTime" per entry (decoding it back is C16's subject)
+		b := w.body.Bytes()
+		vf.Assert(bytes.HasPrefix(b, []byte(`{"log":{`)), "handler-writes-a-har-document")
+		vf.Assert(bytes.Count(b, []byte(`"startedDateTime"`)) == len(want), "handler-lists-the-entries-of-the-operation")
+	}
+	switch {
+	case !reset && method == "GET":
+		listed(model)
+		checkState(l, model, "export-handler")
+	case !reset:
+		vf.Assert(w.status == 405, "other-methods-not-allowed")
+		checkState(l, model, "export-handler-405")
+	case method != "POST" && method != "DELETE":
+		vf.Assert(w.status == 405, "other-methods-not-allowed")
+		checkState(l, model, "reset-handler-405")
+	case ret == 4:
+		vf.Assert(w.status == 400, "invalid-return-value-rejected")
+		checkState(l, model, "reset-handler-400")
+	case ret == 1 || ret == 2:
+		// export-and-reset: returns exactly the completed entries and keeps the pending ones
+		listed(completed)
+		checkState(l, pending, "reset-handler-return")
+		vf.Reach("export-and-reset")
+	default:
+		vf.Assert(w.status == 204, "reset-answers-204")
+		checkState(l, nil, "reset-handler")
+	}
+	vf.Reach("done")
+}
+
+type hrw struct {
+	h      http.Header
+	status int
+	body   bytes.Buffer
+}
+
+func (w *hrw) Header() http.Header         { return w.h }
+func (w *hrw) Write(b []byte) (int, error) { return w.body.Write(b) }
+func (w *hrw) WriteHeader(s int)           { w.status = s }
